@@ -86,14 +86,36 @@ def stage_segments(out):
     return seg
 
 
+SYN_KINDS = ("before", "after", "on_failure")
+
+
+def spec_map(out) -> dict:
+    """ref -> stage description, for the submitted stages AND the synthetic children their builders add
+    (a chained child depends on the child added before it; `parent` / `kind` say where it belongs)"""
+    m = {}
+    for s in out["case"]["spec"]["stages"]:
+        m[s["ref"]] = s
+        for kind in SYN_KINDS:
+            prev = None
+            for ch in s.get(kind, []):
+                d = dict(ch)
+                d["reqs"] = [prev] if (ch.get("chain") and prev) else []
+                d["parent"], d["kind"] = s["ref"], kind
+                m[ch["ref"]] = d
+                prev = ch["ref"]
+    return m
+
+
 def statuses_at(out, seq: int) -> dict:
-    """stage ref -> durable status just before audit row `seq`"""
+    """stage ref -> durable status just before audit row `seq` (synthetic children from the commit that added them)"""
     st = {s["ref"]: "NOT_STARTED" for s in out["case"]["spec"]["stages"]}
     for row in out["audit"]:
         if row["seq"] >= seq:
             break
         if row["kind"] == "stage":
             st[ref_of(out, row["ent"])] = row["new"]
+        elif row["kind"] == "stage_add":
+            st.setdefault(ref_of(out, row["ent"]), "NOT_STARTED")
     return st
 
 
@@ -108,18 +130,18 @@ def m_c02(out) -> list[Violation]:
     for row in out["audit"]:
         if row["kind"] == "stage" and row["new"] == "NOT_STARTED":
             resets.setdefault(ref_of(out, row["ent"]), []).append(row["seq"])
-    pushes = {}
+    # a duplicate StartTask MESSAGE is harmless (the handler ignores it unless the task is NOT_STARTED; a parent with
+    # several before stages gets one per ContinueParentStage): what must not happen is the task being STARTED twice
+    starts = {}
     for row in out["audit"]:
-        if row["kind"] == "push" and row["new"] == "StartTask":
-            p = json.loads(row["extra"])
-            ref = out["id_ref"].get(p.get("stage_id"))
-            t = out["task_ids"].get(p.get("task_id"), [None, None])[1]
+        if row["kind"] == "task" and row["old"] == "NOT_STARTED" and row["new"] in ("RUNNING", "SKIPPED"):
+            ref, t = task_of(out, row["ent"])
             it = bisect.bisect_left(resets.get(ref, []), row["seq"])
-            pushes[(ref, t, it)] = pushes.get((ref, t, it), 0) + 1
-    for (ref, t, it), n in pushes.items():
+            starts[(ref, t, it)] = starts.get((ref, t, it), 0) + 1
+    for (ref, t, it), n in starts.items():
         if n > 1:
             vs.append(Violation(
-                what=f"stage {ref} task {t} was started {n} times in loop iteration {it} (StartTask pushed {n} times)",
+                what=f"stage {ref} task {t} was started {n} times in loop iteration {it}",
                 signature=f"start-twice:{ref}:{t}", replay=_replay(out)))
     # (b) re-execution after a recorded result
     done = {}     # task key -> list of (seq when completed)
@@ -226,7 +248,35 @@ def join_ok(stage_spec, sts: dict, old_ctx: dict) -> bool:
 
 def m_c03(out) -> list[Violation]:
     vs = []
-    specs = {s["ref"]: s for s in out["case"]["spec"]["stages"]}
+    specs = spec_map(out)
+    # synthetic ordering: a parent's task starts only after every before stage finished in a continuable status; an
+    # after / on-failure stage starts only after the parent's own tasks are all complete
+    kids = {}
+    for ref, sp in specs.items():
+        if sp.get("parent"):
+            kids.setdefault((sp["parent"], sp["kind"]), []).append(ref)
+    task_st = {}
+    for row in out["audit"]:
+        if row["kind"] == "task":
+            k = task_of(out, row["ent"])
+            if row["old"] == "NOT_STARTED" and row["new"] == "RUNNING" and kids.get((k[0], "before")):
+                sts = statuses_at(out, row["seq"])
+                bad = [c for c in kids[(k[0], "before")] if sts.get(c) not in CONTINUABLE]
+                if bad:
+                    vs.append(Violation(
+                        what=f"task {k} of stage {k[0]} started while its before stage(s) {bad} were {[sts.get(c) for c in bad]}",
+                        signature=f"task-before-before-stage:{k[0]}", replay=_replay(out)))
+            task_st[k] = row["new"]
+        elif row["kind"] == "stage" and row["old"] == "NOT_STARTED" and row["new"] == "RUNNING":
+            ref = ref_of(out, row["ent"])
+            sp = specs.get(ref)
+            if sp and sp.get("kind") in ("after", "on_failure"):
+                par = specs[sp["parent"]]
+                pend = [t for t in range(len(par.get("tasks", []))) if task_st.get((sp["parent"], t), "NOT_STARTED") not in COMPLETE]
+                if pend:
+                    vs.append(Violation(
+                        what=f"after stage {ref} started while tasks {pend} of its parent {sp['parent']} were not complete",
+                        signature=f"after-stage-early:{ref}", replay=_replay(out)))
     for row in out["audit"]:
         if row["kind"] == "stage" and row["old"] == "NOT_STARTED" and row["new"] == "RUNNING":
             ref = ref_of(out, row["ent"])
@@ -351,7 +401,7 @@ def workflow_in_effect_finished(out, at_cancel: dict, decided=(), fs=None) -> bo
     already decided - every task result recorded / its CompleteStage or SkipStage pushed - and it then ended in
     that completed status), or NOT_STARTED with no way left to be started: an AND join behind a halted
     (TERMINAL / STOPPED / CANCELED) or itself blocked stage, any other join with EVERY upstream halted or blocked"""
-    specs = {s["ref"]: s for s in out["case"]["spec"]["stages"]}
+    specs = spec_map(out)
     fs = fs or {}
     eff = {ref: (fs[ref] if st not in COMPLETE and ref in decided and fs.get(ref) in COMPLETE else st)
            for ref, st in at_cancel.items()}
@@ -371,7 +421,7 @@ def in_effect_finished(out, cseq: int) -> set:
     """stages whose outcome was already decided when the cancel was processed: every task has a recorded
     result (a completed status, or its CompleteTask was already pushed), or a SkipStage / CompleteStage for
     the stage was already pushed.  Their in-flight completion may still win the race with CancelStage."""
-    specs = {s["ref"]: s for s in out["case"]["spec"]["stages"]}
+    specs = spec_map(out)
     task_status = {}
     pushed_ct, decided = set(), set()
     last_reset = {}
@@ -436,7 +486,7 @@ def script_shifted(out) -> bool:
     it has been called (jump first, succeed later ...): the re-execution allowed by at-least-once delivery then
     legitimately produces a different result than the uninterrupted run, so the data seen downstream is not
     comparable with the baseline (a harness artefact of scripting tasks by call count, not an engine property)"""
-    scripts = {(s["ref"], t): steps for s in out["case"]["spec"]["stages"] for t, steps in enumerate(s.get("tasks", []))}
+    scripts = {(ref, t): steps for ref, sp in spec_map(out).items() for t, steps in enumerate(sp.get("tasks", []))}
     return any(len(set(scripts.get(k, []))) > 1 for k in in_flight_tasks(out))
 
 
